@@ -137,6 +137,7 @@ void HARNESS(void)
 static uint8_t pad_at(const uint8_t* tail, uint32_t cur, uint64_t bits, uint64_t i)
 {
   uint64_t plen = (cur + 1 + LENFIELD <= BLOCK) ? BLOCK : 2 * BLOCK;
+  if (i >= plen) return 0;             /* beyond the padded tail (only asked for offsets that are not fed) */
   if (i < cur) return tail[i];
   if (i == cur) return 0x80;
   if (i < plen - LENFIELD) return 0;
